@@ -116,6 +116,22 @@ func replayInto(start *tak.Position, ms []tak.Move, r *rand.Rand, pool []*tak.Po
 }
 
 func runC08(c *ctx) {
+	if c.tier == "replay" {
+		parts := strings.Split(readReplay(c).Input, ";")
+		p, err := decodeEnc(parts[0])
+		if err != nil {
+			return
+		}
+		if len(parts) > 1 {
+			if q, err := decodeEnc(parts[1]); err == nil {
+				emitPair(c, p, q, "replay")
+			}
+		} else {
+			c08Sampled = -1
+			emitSingle(c, p, "replay")
+		}
+		return
+	}
 	r := c.r
 	// 1. every position of playouts, produced into fresh and into reused, dirty storage
 	for g := 0; g < 40*c.scale; g++ {
